@@ -268,8 +268,25 @@ def clause_txt(c):
     return h + "." if not c[2] else "%s :- %s." % (h, ", ".join(lit_txt(l) for l in c[2]))
 
 
-def to_text(prog, evidence_style=0, queries=True, evidence=True):
-    out = [clause_txt(c) for c in prog["clauses"]]
+def to_text(prog, evidence_style=0, queries=True, evidence=True, disj=False):
+    """disj=True prints groups of deterministic rules with the same head as ONE clause with a disjunctive body
+    (h :- (b1 ; b2).), which is the same program for the reference (it keeps the separate rules)."""
+    out = []
+    cl = prog["clauses"]
+    used = set()
+    for i, c in enumerate(cl):
+        if i in used:
+            continue
+        if disj and c[0] == "rule" and c[1] is None and c[3]:
+            grp = [j for j in range(i, len(cl)) if j not in used and cl[j][0] == "rule" and cl[j][1] is None and cl[j][3]
+                   and cl[j][2] == c[2]]
+            if len(grp) >= 2:
+                grp = grp[:3]
+                used.update(grp)
+                bodies = ["(%s)" % ", ".join(lit_txt(l) for l in cl[j][3]) if len(cl[j][3]) > 1 else lit_txt(cl[j][3][0]) for j in grp]
+                out.append("%s :- (%s)." % (lit_txt(c[2]), " ; ".join(bodies)))
+                continue
+        out.append(clause_txt(c))
     if queries:
         for q in prog["queries"]:
             out.append("query(%s)." % lit_txt(q))
